@@ -24,7 +24,8 @@ ASSUMPTIONS = ["numpy comparison operators implement <, <=, >, >=, == on non-NaN
 AUDIT = {"functions": ["verif.interval.Interval.within", "verif.interval.Interval.__init__",
                        "verif.util.get_intervals", "verif.util.apply_threshold",
                        "verif.util.apply_threshold_prob", "verif.util.get_threshold_string",
-                       "verif.metric.QuantileCoverage.compute_single"]}
+                       "verif.metric.QuantileCoverage.compute_single", "verif.output.Hist._plot_core",
+                       "verif.output.Freq._plot_core"]}
 
 
 def S(name):
@@ -392,7 +393,46 @@ def check_callers(ctx):
     ctx.floor("C07.5", 25)
 
 
+def check_counting_diagrams(ctx):
+    """Hist (-hist) and Freq count events through Interval.within of get_intervals(self.bin_type, self.thresholds)
+    on every path that reaches the drawing call."""
+    from .. import plotargs
+    prog = ctx.prog
+    gi = form.apply("call:verif.util.get_intervals", [S("self.bin_type"), S("self.thresholds")])
+    for cname, min_series in (("verif.output.Hist", 1), ("verif.output.Freq", 1)):
+        c = prog.cls(cname, required=False)
+        if c is None:
+            ctx.note("%s not present" % cname)
+            continue
+        site = cname + "._plot_core"
+        try:
+            calls, ev = plotargs.draw_calls(prog, c)
+        except symeval.Undecided as e:
+            raise AnalysisError("%s: %s" % (site, e))
+        series = [k for k in calls if k["kind"] in ("plot", "plot_obs") and len(k["args"]) >= 2]
+        ctx.need(len(series) >= min_series, "%s: no drawing call found" % site)
+
+        def is_event_count(a):
+            if a.func not in ("m:within", "within"):
+                return False
+            base = a.args[0]
+            if not isinstance(base, Rat):
+                return False
+            g = base.as_atom("getitem")
+            return g is not None and isinstance(g.args[0], Rat) and g.args[0].equals(gi)
+        for k in series:
+            y = k["args"][1]
+            ok = plotargs.contains_atom(y, is_event_count)
+            ctx.ob("C07.8", site, ok, "plotted counts derive from get_intervals(self.bin_type, self.thresholds)[i].within(...)",
+                   loc=prog.loc(c.module, k["node"]),
+                   msg="a path to the drawing call computes the plotted frequencies without Interval.within of the user's bin type "
+                       "(conditions: %s): %s" % ([(cc.key()[:80], p_) for cc, p_ in k["conds"]][-3:], str(y)[:200]),
+                   sample={"rule": "C07.8", "site": site, "y": str(y)[:200]})
+
+
 def run(ctx):
+    ctx.rule("C07.8", "histogram / frequency counts are computed with Interval.within of the user's bin type on every path")
+    check_counting_diagrams(ctx)
     ctx.rule("C07.1", "Interval.within denotes the interval selected by its flags (array and scalar branch, all order relations)")
     ctx.rule("C07.2", "get_intervals maps each bin type to the documented bounds and closed ends")
     ctx.rule("C07.3", "apply_threshold / get_threshold_string / apply_threshold_prob / QuantileCoverage agree with the documented events")
